@@ -6,7 +6,7 @@
     tr  <patHex>                                 TransformRegExp alone: ok:<hex> | inc:<hex> | invalid
 
   pat / flags / subject / replacement strings are hex of UTF-8 bytes (`-` = empty).
-  steps (comma separated): e  t  m  s  rS:<hex>  rF  p:<n|u>  L:<li>      li: i<int> nan pinf ninf h<int>
+  steps (comma separated): e  t  m  s  rS:<hex>  rF  rK:<hex>  p:<n|u>  L:<li>      li: i<int> nan pinf ninf h<int>
   reply: <model> <spec> <dev>
 -/
 import OttoVerif.Base.Proto
@@ -122,6 +122,7 @@ def step? (t : String) : Option Step :=
   if t = "e" then some .exec else if t = "t" then some .test else if t = "m" then some .mtch
   else if t = "s" then some .search else if t = "rF" then some .replaceF
   else if t.startsWith "rS:" then (hex? (dropS t 3)).map .replaceS
+  else if t.startsWith "rK:" then (hex? (dropS t 3)).map .replaceK
   else if t = "p:u" then some (.split none)
   else if t.startsWith "p:" then (dropS t 2).toNat?.map fun n => .split (some n)
   else if t.startsWith "L:" then (li? (dropS t 2)).map .setLI
@@ -181,7 +182,7 @@ def devX (pat flags subj : List Nat) (steps : List Step) : List String :=
     let ml := flags.contains 109
     let has (p : Step → Bool) := steps.any p
     let execLike := has fun | .exec | .test => true | .mtch => !g | _ => false
-    let allLike := has fun | .mtch => g | .replaceS _ | .replaceF => g | .split _ => true | _ => false
+    let allLike := has fun | .mtch => g | .replaceS _ | .replaceF | .replaceK _ => g | .split _ => true | _ => false
     let anyMatch := has fun | .setLI _ => false | _ => true
     let nl := nullable r
     base ++
